@@ -233,12 +233,69 @@ func c03Index(e *Env) {
 		}
 		return true, ""
 	}
+	// registration-time code of the router, by role: reachable (static calls) from the exported
+	// registration entry RouterGroup.Handle and not from the serving entries Engine.ServeHTTP /
+	// Engine.Serve — its input is the application's route pattern, not peer input
+	regOnly := map[*ssa.Function]bool{}
+	{
+		reach := func(roots ...*ssa.Function) map[*ssa.Function]bool {
+			seen := map[*ssa.Function]bool{}
+			var walk func(f *ssa.Function)
+			walk = func(f *ssa.Function) {
+				if f == nil || seen[f] || f.Blocks == nil {
+					return
+				}
+				seen[f] = true
+				for _, b := range f.Blocks {
+					for _, ins := range b.Instrs {
+						switch x := ins.(type) {
+						case ssa.CallInstruction:
+							walk(x.Common().StaticCallee())
+						}
+						if mc, ok := ins.(*ssa.MakeClosure); ok {
+							if cf, ok := mc.Fn.(*ssa.Function); ok {
+								walk(cf)
+							}
+						}
+					}
+				}
+				for _, an := range f.AnonFuncs {
+					walk(an)
+				}
+			}
+			for _, r := range roots {
+				walk(r)
+			}
+			return seen
+		}
+		ssaOf := func(rel, recv, name string) *ssa.Function {
+			if fi := w.Func(rel, recv, name); fi != nil {
+				return w.SSAFunc(fi)
+			}
+			return nil
+		}
+		reg := reach(ssaOf("pkg/route", "RouterGroup", "Handle"))
+		srv := reach(ssaOf("pkg/route", "Engine", "ServeHTTP"), ssaOf("pkg/route", "Engine", "Serve"))
+		for f := range reg {
+			if !srv[f] && fnPkgRel(w, f) == "pkg/route" {
+				regOnly[f] = true
+			}
+		}
+	}
 	for _, fn := range z.fns {
 		rel := fnPkgRel(w, fn)
 		if !surf[rel] || fn.Name() == "init" {
 			continue
 		}
 		name := z.name[fn]
+		root := fn
+		for root.Parent() != nil {
+			root = root.Parent()
+		}
+		if regOnly[root] {
+			r.Except(rule, "pkg/route:registration-time:"+strings.TrimPrefix(name, "pkg/route."), w.Pos(fn.Pos()), "function is part of the peer-input surface", "registration-time code (reachable from RouterGroup.Handle, not from Engine.ServeHTTP/Serve): its input is the application's route pattern, validated and panicking by contract on a bad pattern; never reached with peer input")
+			continue
+		}
 		if reason, ok := surfaceExcluded[strings.SplitN(name, "$", 2)[0]]; ok {
 			r.Except(rule, name+":excluded", w.Pos(fn.Pos()), "function is part of the peer-input surface", reason)
 			continue
